@@ -8,11 +8,14 @@ os.makedirs(D, exist_ok=True)
 diff = subprocess.run(["git", "-C", W, "diff"], stdout=subprocess.PIPE, text=True).stdout
 open(os.path.join(D, "patch.diff"), "w").write(diff)
 for f in os.listdir(O):
-    if f in ("TASK.txt",) or f.startswith("jrsonnet") or f.endswith(".log") or os.path.isdir(os.path.join(O, f)):
+    if f in ("TASK.txt",) or f.startswith("jrsonnet") or f.endswith(".log") or (os.path.isdir(os.path.join(O, f)) and f == "base"):
         continue
     if f == "patch.diff":
         continue
-    shutil.copy(os.path.join(O, f), os.path.join(D, f))
+    if os.path.isdir(os.path.join(O, f)):
+        shutil.copytree(os.path.join(O, f), os.path.join(D, f), dirs_exist_ok=True)
+    else:
+        shutil.copy(os.path.join(O, f), os.path.join(D, f))
 meta = {}
 mp = os.path.join(O, "meta.json")
 if os.path.exists(mp):
